@@ -27,6 +27,7 @@ func runC12(c *report.Ctx) {
 	p := c.P
 	ruleGapOracleIsTheChain(c)
 	ruleBestHeightReadWhileParked(c) // a payment in a block the rescan skipped leaves the restored address listed unused
+	ruleStakingUseMarksStandardForm(c)
 	na := fn(c, pkgKeystore, "AddrManager", "nextAddresses")
 	updCN := fn(c, pkgKeystore, "", "updateChildNum")
 	putPK := fn(c, pkgKeystore, "", "putEncryptedPubKey")
